@@ -6,6 +6,7 @@ import (
 	"context"
 	"io"
 	"net"
+	"sync"
 	"sync/atomic"
 
 	"github.com/tidwall/redcon"
@@ -17,6 +18,9 @@ type vpConn struct {
 	closed atomic.Bool
 	cur    []string
 	msgs   [][]string
+	mu     sync.Mutex
+	queue  []redcon.Command // commands the client sends while in subscribed mode
+	idle   bool             // the command loop is waiting for the next command
 }
 
 func (c *vpConn) RemoteAddr() string             { return "vp" }
@@ -47,11 +51,44 @@ func (c *vpConn) Flush() error {
 	return nil
 }
 
-// ReadCommand blocks until the harness disconnects the connection, then reports EOF (the background
-// runner of the connection then removes all of its subscriptions).
+// ReadCommand hands the connection's command loop the next command the harness queued; when the harness disconnects
+// the connection it reports EOF (the background runner of the connection then removes all of its subscriptions).
 func (c *vpConn) ReadCommand() (redcon.Command, error) {
-	vpWaitUntil(func() bool { return c.closed.Load() })
+	c.mu.Lock()
+	c.idle = len(c.queue) == 0
+	c.mu.Unlock()
+	vpWaitUntil(func() bool {
+		c.mu.Lock()
+		defer c.mu.Unlock()
+		return c.closed.Load() || len(c.queue) > 0
+	})
+	c.mu.Lock()
+	defer c.mu.Unlock()
+	if len(c.queue) > 0 {
+		cmd := c.queue[0]
+		c.queue = c.queue[1:]
+		c.idle = false
+		return cmd, nil
+	}
 	return redcon.Command{}, io.EOF
+}
+
+// vpSend queues one command for the connection's command loop and waits until the loop has processed it.
+func (c *vpConn) vpSend(words ...string) {
+	args := make([][]byte, len(words))
+	for i, w := range words {
+		args[i] = []byte(w)
+	}
+	c.mu.Lock()
+	c.queue = append(c.queue, redcon.Command{Args: args})
+	c.idle = false
+	c.mu.Unlock()
+	vpRunPending()
+	vpWaitUntil(func() bool {
+		c.mu.Lock()
+		defer c.mu.Unlock()
+		return c.idle && len(c.queue) == 0
+	})
 }
 
 var _ = context.Background
@@ -141,7 +178,7 @@ func VerifC14_PubSub() {
 	ref := [2]vpSubs{{exact: map[string]bool{}, pat: map[string]bool{}}, {exact: map[string]bool{}, pat: map[string]bool{}}}
 	gone := [2]bool{}
 	for i := 0; i < steps; i++ {
-		op := vpChoose("op", 7)
+		op := vpChoose("op", 8)
 		switch op {
 		case 0, 1: // subscribe / psubscribe
 			c := vpChoose("conn", 2)
@@ -182,6 +219,22 @@ func VerifC14_PubSub() {
 			} else {
 				ps.unsubscribe(conns[c], true, true, "")
 				ref[c].pat = map[string]bool{}
+			}
+		case 7: // one UNSUBSCRIBE / PUNSUBSCRIBE command naming two channels or patterns, through the command loop
+			c := vpChoose("conn", 2)
+			if gone[c] || (len(ref[c].exact) == 0 && len(ref[c].pat) == 0) {
+				vpAssume(false)
+			}
+			if vpChoose("kind", 2) == 0 {
+				n1, n2 := vpName("chan", false), vpName("chan", false)
+				conns[c].vpSend("unsubscribe", n1, n2)
+				delete(ref[c].exact, n1)
+				delete(ref[c].exact, n2)
+			} else {
+				n1, n2 := vpName("pat", true), vpName("pat", true)
+				conns[c].vpSend("PUNSUBSCRIBE", n1, n2)
+				delete(ref[c].pat, n1)
+				delete(ref[c].pat, n2)
 			}
 		case 5: // disconnect
 			c := vpChoose("conn", 2)
